@@ -45,6 +45,8 @@ type shapeGen struct {
 	nextID     int
 	sh         *Shape
 	nestedBias bool // C04: more named nested struct fields
+	done       [][2]string // struct types already complete (candidates for reuse) with the kind of their first use
+	reuses     int
 }
 
 func (g *shapeGen) fieldName(used map[string]bool) string {
@@ -134,6 +136,25 @@ func (g *shapeGen) genStruct(name string, depthLeft int, minFields int) {
 				f = Field{Name: e[1], Kind: "embedns", Type: e[0]}
 			}
 		default:
+			// a struct type that is already complete may be used again (the same type embedded twice in different
+			// branches, embedded here and nested there): never an ancestor, so the type graph stays acyclic
+			if len(g.done) > 0 && g.reuses < 3 && rapid.IntRange(0, 3).Draw(g.t, "reuse") == 0 {
+				d := rapid.SampledFrom(g.done).Draw(g.t, "reused")
+				tn := d[0]
+				if rapid.Bool().Draw(g.t, "sameKind") {
+					kind = d[1] // e.g. the same type embedded by pointer in two branches
+				}
+				fname := tn
+				if kind == "nested" {
+					fname = g.fieldName(used)
+				}
+				if !used[fname] {
+					used[fname] = true
+					g.reuses++
+					f = Field{Name: fname, Kind: kind, Type: tn}
+					break
+				}
+			}
 			g.nextID++
 			tn := fmt.Sprintf("E%d_%d", g.idx, g.nextID)
 			if kind != "nested" && rapid.IntRange(0, 4).Draw(g.t, "unexportedType") == 0 {
@@ -146,10 +167,36 @@ func (g *shapeGen) genStruct(name string, depthLeft int, minFields int) {
 			used[fname] = true
 			f = Field{Name: fname, Kind: kind, Type: tn}
 			g.genStruct(tn, depthLeft-1, 1)
+			g.done = append(g.done, [2]string{tn, kind})
 		}
 		fields = append(fields, f)
 	}
 	g.sh.Structs[self].Fields = fields
+}
+
+// addDiamond makes one struct type reachable along two branches: Root{...; A; B}, A{M|*M; ...}, B{...; M|*M}.
+func (g *shapeGen) addDiamond() {
+	name := func() string { g.nextID++; return fmt.Sprintf("E%d_%d", g.idx, g.nextID+20) }
+	plain := func(used map[string]bool) Field {
+		return Field{Name: g.fieldName(used), Kind: "plain", Type: g.plainType()}
+	}
+	m, a, b := name(), name(), name()
+	ms := Struct{Name: m}
+	um := map[string]bool{}
+	for i := rapid.IntRange(1, 3).Draw(g.t, "mfields"); i > 0; i-- {
+		ms.Fields = append(ms.Fields, plain(um))
+	}
+	kinds := []string{"pembed", "pembed", "embed"}
+	ka, kb := rapid.SampledFrom(kinds).Draw(g.t, "ka"), rapid.SampledFrom(kinds).Draw(g.t, "kb")
+	ua, ub := map[string]bool{m: true}, map[string]bool{m: true}
+	as := Struct{Name: a, Fields: []Field{{Name: m, Kind: ka, Type: m}, plain(ua)}}
+	bs := Struct{Name: b, Fields: []Field{plain(ub), {Name: m, Kind: kb, Type: m}}}
+	g.sh.Structs = append(g.sh.Structs, as, bs, ms)
+	root := &g.sh.Structs[0]
+	outer := []string{"embed", "embed", "pembed"}
+	root.Fields = append(root.Fields,
+		Field{Name: a, Kind: rapid.SampledFrom(outer).Draw(g.t, "oa"), Type: a},
+		Field{Name: b, Kind: rapid.SampledFrom(outer).Draw(g.t, "ob"), Type: b})
 }
 
 // tags are added in a second pass so that a tag key can collide with a field name elsewhere in the shape.
@@ -182,6 +229,9 @@ func GenShape(t *rapid.T, idx int) Shape {
 	g := &shapeGen{t: t, idx: idx, sh: &Shape{Root: fmt.Sprintf("S%d", idx)}}
 	depth := rapid.SampledFrom([]int{0, 1, 2, 3, 3, 4}).Draw(t, "depth")
 	g.genStruct(g.sh.Root, depth, 1)
+	if rapid.IntRange(0, 5).Draw(t, "diamond") == 0 {
+		g.addDiamond()
+	}
 	g.addTags()
 	return *g.sh
 }
